@@ -161,15 +161,18 @@ ares_status_t ares_event_configchg_init(ares_event_configchg_t **configchg,
     goto done;               /* LCOV_EXCL_LINE: UntestablePath */
   }
 
+  /* Publish before handing the event over: the event thread owns (and, if it
+   * can't register the event, releases) the object from then on */
+  *configchg = c;
+
   status =
     ares_event_update(NULL, e, ARES_EVENT_FLAG_READ, ares_event_configchg_cb,
                       c->inotify_fd, c, ares_event_configchg_free, NULL);
 
 done:
   if (status != ARES_SUCCESS) {
+    *configchg = NULL;
     ares_event_configchg_free(c);
-  } else {
-    *configchg = c;
   }
   return status;
 }
